@@ -150,6 +150,7 @@ type exec struct {
 	suite    *refimpl.Suite
 	tr       *world.Tracer
 	problems []problem // violations found while the scenario runs (forged-record part)
+	retHist  [2][]uint32
 }
 
 type problem struct {
@@ -190,6 +191,33 @@ func (x *exec) endStep() {
 			o.doneStep = s
 		}
 	}
+	// read generations installed at the end of step s (bit g = epoch 3+g)
+	if x.pr != nil && x.chains[cli] != nil {
+		for _, sd := range []side{cli, srv} {
+			var mask uint32
+			for e := range x.view(sd, len(x.chains[cli].keys)-1).retained {
+				mask |= 1 << uint(int(e)-firstAppEp)
+			}
+			for len(x.retHist[sd]) <= s {
+				x.retHist[sd] = append(x.retHist[sd], mask)
+			}
+		}
+	}
+}
+
+// retainedAt reports whether side sd had read generation g installed at the end of step s, and whether it
+// had it installed at the end of any step <= s.
+func (x *exec) retainedAt(sd side, s, g int) (now, ever bool) {
+	h := x.retHist[sd]
+	if s >= len(h) {
+		s = len(h) - 1
+	}
+	for i := 0; i <= s; i++ {
+		if h[i]&(1<<uint(g)) != 0 {
+			ever = true
+		}
+	}
+	return s >= 0 && h[s]&(1<<uint(g)) != 0, ever
 }
 
 // onEvent is the network observer: one call per network transition, after the world has settled.
